@@ -287,6 +287,8 @@ def eval_int(t):
                 return max(vs)
             if last == "abs" and len(vs) == 1:
                 return abs(vs[0])
+            if last == "pow" and len(vs) == 2 and 0 <= vs[1] <= 64:
+                return vs[0] ** vs[1]
         return None
     if k == "binop":
         a, b = eval_int(t[2]), eval_int(t[3])
